@@ -98,6 +98,16 @@ pub(crate) fn search_samplerz(seed: u64) -> Option<String> {
                 if let Err(why) = samplerz_case(mu, sg, sm, 7) { return Some(format!("{} | {}", why, arg(mu, sg, sm, 7))); }
             }
         }
+        // the sampler as ffSampling calls it at a leaf
+        let nn = if sm < 1.29 { 512usize } else { 1024 };
+        for k in 0..400u64 {
+            let mu0 = ((rnd() % 200_001) as f64 - 100_000.0) / 1000.0;
+            let mu1 = ((rnd() % 200_001) as f64 - 100_000.0) / 1000.0;
+            let sg = sm + (1.8205 - sm) * ((rnd() % 1001) as f64 / 1000.0);
+            if let Err(why) = crate::ffsampling::verif::leaf_case(mu0, mu1, sg, nn, k) {
+                return Some(format!("{} | argv=leaf-case,{:016x},{:016x},{:016x},{},{}", why, mu0.to_bits(), mu1.to_bits(), sg.to_bits(), nn, k));
+            }
+        }
         // agreement with Algorithm 15 on the same bytes
         for k in 0..20000u64 {
             let mu = ((rnd() % 2_000_001) as f64 - 1_000_000.0) / 1000.0;
